@@ -1,8 +1,9 @@
 (* C08 -- zero-true-positive results are exactly what the edge case handler prescribes.
    Quantified over EVERY handler table (each of the four scenario entries in {INF,NAN,ZERO,ONE,NONE}
    per metric, any empty-list value) and all instance counts; case analysis on the dispatch, not
-   enumeration.  C08_pipeline_zero_instances lifts it to the pipeline for inputs with an empty side; the
-   'instances on both sides, none matched' scenario reaches C08_zero_tp with tp = 0 by C02_counts_and_lists. *)
+   enumeration.  C08_pipeline_zero_instances lifts it to the pipeline for inputs with an empty side;
+   C08_pipeline_zero_tp to EVERY evaluation that ends with zero true positives, in particular 'instances on both sides,
+   nothing matched' and 'matched, but no pair passes the decision threshold'. *)
 From Pan Require Import Base.Common Base.Sx Model.MetricTable Model.Metrics Model.EdgeCase Model.Result Model.Pipeline
   Proofs.ResultFacts Proofs.PipelineFacts.
 Open Scope Z_scope.
@@ -45,6 +46,47 @@ Theorem C08_pipeline_zero_instances : forall x c a,
         m_sq mr = ecr_value (entry mh s) /\ m_var mr = ecr_value (h_std (c_handler c)) /\ m_all mr = []) /\
     (forall m, In m (c_ems c) -> exists mr, In mr (o_metrics r) /\ m_metric mr = m).
 Proof. exact pipeline_zero_instances_result. Qed.
+
+(* EVERY evaluation that ends with zero true positives (whatever the reason: an empty side, nothing matched, or no matched pair
+   passing the decision threshold; every input type that reaches the pipeline as instance maps, every matcher, metric, threshold)
+   reports the handler's prescription for the scenario of the two instance counts: fp / fn are the counts (of the arrays the matcher
+   hands on), every list is empty, sq is the handler's entry, std its empty-list value, for every evaluated metric *)
+From Pan Require Import Proofs.ZeroTpNormal Model.Matcher Model.ZeroCase.
+Theorem C08_pipeline_zero_tp : forall x c a r,
+  (forall m, In m (c_ems c) -> exists mh, lookup_m m (h_table (c_handler c)) = Some mh) ->
+  pipeline x c a = Ok r -> o_tp r = 0 ->
+  exists a', (c_matcher c = 0 /\ a' = a \/ zero_case (n_pred_inst a) (n_ref_inst a) <> None /\ a' = a
+              \/ c_matcher c <> 0 /\ match_phase x c a = Ok a') /\
+    exists s, classify (n_pred_inst a') (n_ref_inst a') = Some s /\
+      o_fp r = n_pred_inst a' /\ o_fn r = n_ref_inst a' /\
+      (forall mr, In mr (o_metrics r) -> exists mh, lookup_m (m_metric mr) (h_table (c_handler c)) = Some mh /\
+          m_sq mr = ecr_value (entry mh s) /\ m_var mr = ecr_value (h_std (c_handler c)) /\ m_all mr = []) /\
+      (forall m, In m (c_ems c) -> exists mr, In mr (o_metrics r) /\ m_metric mr = m).
+Proof. exact pipeline_zero_tp. Qed.
+Theorem C08_evaluation_phase_zero_tp : forall x c a r,
+  (forall m, In m (c_ems c) -> exists mh, lookup_m m (h_table (c_handler c)) = Some mh) ->
+  eval_phase x c a = Ok r -> o_tp r = 0 ->
+  exists s, classify (n_pred_inst a) (n_ref_inst a) = Some s /\
+    o_fp r = n_pred_inst a /\ o_fn r = n_ref_inst a /\
+    (forall mr, In mr (o_metrics r) -> exists mh, lookup_m (m_metric mr) (h_table (c_handler c)) = Some mh /\
+        m_sq mr = ecr_value (entry mh s) /\ m_var mr = ecr_value (h_std (c_handler c)) /\ m_all mr = []) /\
+    (forall m, In m (c_ems c) -> exists mr, In mr (o_metrics r) /\ m_metric mr = m).
+Proof. exact eval_phase_zero_tp. Qed.
+
+(* non-vacuity: matched instance 1 overlaps imperfectly (IoU 1/2); the decision metric IoU with threshold 1 rejects it: zero true
+   positives with one instance on each side -> the NORMAL entries (IoU: INF, Dice: ZERO), std ONE *)
+Example C08_zero_tp_by_decision_nonvacuous :
+  let h := {| h_table := [(IOU, mh4 NAN ZERO ONE INF); (DSC, mh4 ONE ONE ONE ZERO)]; h_std := ONE |} in
+  let a := [(1, 1); (1, 1); (1, 0); (0, 1); (0, 0)] in
+  let x := {| x_inst := fun _ _ => 0%Q; x_pair := fun _ => 0%Q; x_union := fun _ _ => 0%Q |} in
+  let c := {| c_matcher := 0; c_mmetric := IOU; c_mthr := 1 # 2; c_ems := [IOU; DSC];
+              c_dm := Some IOU; c_dthr := Some (1 # 1); c_handler := h |} in
+  match pipeline x c a with
+  | Ok r => o_tp r = 0 /\ o_fp r = 1 /\ o_fn r = 1 /\ map (fun mr => (m_metric mr, m_sq mr, m_var mr)) (o_metrics r)
+                                                          = [(DSC, FQ 0, FQ 1); (IOU, FInf, FQ 1)]
+  | Err _ => False
+  end.
+Proof. vm_compute. repeat split; reflexivity. Qed.
 
 (* non-vacuity: an injective table on a NORMAL zero-TP input *)
 Example C08_nonvacuous :
